@@ -31,7 +31,7 @@ def resOfJson (j : Json) : Except String (Res Rat) := do
   pure { backmap := ← (← j.getObjVal? "backmap").getBool?
          template := ← (← j.getObjVal? "template").getStr?
          pos := ← v3OfJson (← j.getObjVal? "pos")
-         resid := ← (← j.getObjVal? "resid").getNat?
+         node := ← (← j.getObjVal? "node").getNat?
          atoms := ← listOf atomOfJson (← j.getObjVal? "atoms")
          ang := ← anglesOfJson (← j.getObjVal? "ang") }
 
